@@ -744,10 +744,11 @@ type writes struct {
 	ghosts map[string]bool // other ghost values ([]byte snapshots) possibly replaced
 	binReads map[string]types.Type // ghost lastreadof(T) possibly replaced
 	ints     map[string]bool       // integer ghosts possibly replaced
+	bools    map[string]bool       // boolean ghosts possibly replaced
 }
 
 func newWrites() *writes {
-	return &writes{vars: map[types.Object]bool{}, globs: map[string]types.Type{}, fams: map[string]bool{}, calls: map[string]bool{}, ghosts: map[string]bool{}, binReads: map[string]types.Type{}, ints: map[string]bool{}}
+	return &writes{vars: map[types.Object]bool{}, globs: map[string]types.Type{}, fams: map[string]bool{}, calls: map[string]bool{}, ghosts: map[string]bool{}, binReads: map[string]types.Type{}, ints: map[string]bool{}, bools: map[string]bool{}}
 }
 
 func (ex *Exec) havocWrites(w *writes, st *State, onlyOuter bool) {
@@ -768,12 +769,17 @@ func (ex *Exec) havocWrites(w *writes, st *State, onlyOuter bool) {
 	}
 	for name := range w.calls {
 		// this ghost call counter may have advanced
-		st.ghost["calls:"+name] = scalarV(types.Typ[types.Int], freshVar("ghost|calls:"+name, sortInt))
+		cv := freshVar("ghost|calls:"+name, sortMath)
+		st.ghost["calls:"+name] = scalarV(mathintType, cv)
+		st.assume(mkCmp("le", mkInt(sortMath, 0), cv))
 	}
 	for g := range w.ghosts {
 		nv := freshValue("ghost|"+g, types.NewSlice(ghostByteT))
 		st.assumeValid(nv)
 		st.ghost[g] = nv
+	}
+	for k := range w.bools {
+		st.ghost[k] = boolV(freshVar("ghost|"+k, sortBool))
 	}
 	for k := range w.ints {
 		nv := freshValue("ghost|"+k, types.Typ[types.Int])
@@ -1404,6 +1410,7 @@ func (ex *Exec) scanCall(call *ast.CallExpr, info *types.Info, w *writes, depth 
 	switch fn.FullName() {
 	case "(*net.UDPConn).ReadMsgUDPAddrPort":
 		w.ghosts["net.lastpkt"] = true
+		w.bools["net.lastok"] = true
 	case "(*net.UDPConn).WriteToUDPAddrPort":
 		w.ghosts["net.lastsent"] = true
 	}
@@ -1441,6 +1448,9 @@ func (ex *Exec) scanCall(call *ast.CallExpr, info *types.Info, w *writes, depth 
 			}
 			for k := range sub.ints {
 				w.ints[k] = true
+			}
+			for k := range sub.bools {
+				w.bools[k] = true
 			}
 			// callee locals are irrelevant; pointer-receiver/pointer params targeting caller locals:
 			for _, a := range call.Args {
